@@ -37,8 +37,95 @@ def step_fn(name):
 # ----------------------------------------------------------------------------- random inputs
 WEIGHTS = [1, 1, -1, 2, 0.5, -0.5, 3, 0.25, -2, 1.5]
 
+# Magnitudes.  Step sizes, accuracies and coefficients are drawn from moderate dyadics AND from tiny / huge values:
+# tiny dyadics 2^-30 .. 2^-60, decimals like 1e-9 (the float nearest to 1e-9 is a rational: it is given to the model
+# exactly), huge dyadics 2^40.  A coefficient that silently disappears (or is rounded away) in what a step returns /
+# records is then a concrete mismatch with the model, which computes in exact rationals.
+TINY = [2.0 ** -30, 2.0 ** -40, 3 * 2.0 ** -45, 2.0 ** -60, -2.0 ** -35, 1e-9, 1e-10, 2.5e-9, 5e-12]
+TINY_POW2 = [2.0 ** -30, 2.0 ** -40, 2.0 ** -60, -2.0 ** -35]
+HUGE = [2.0 ** 40, 3 * 2.0 ** 38, -2.0 ** 41]
+HUGE_POW2 = [2.0 ** 40, -2.0 ** 41]
 
-def rand_scal(rng, power_of_two=False, allow_zero=True):
+
+class XF(float):
+    """a float that checks that every arithmetic operation it takes part in is exact (the result, a float, equals
+    the rational result).  Step sizes and weights are passed to PEPit as XF objects (XF is a float, so every
+    isinstance test of PEPit accepts it); results of operations are XF again, so the check follows the coefficients
+    through the dictionaries.  A case in which some operation rounded is not comparable with the exact model and is
+    dropped (counted in the evidence)."""
+    inexact = 0
+
+    @staticmethod
+    def _mk(val, exact):
+        try:
+            if Fraction(val) != exact:
+                XF.inexact += 1
+        except (OverflowError, ValueError):
+            XF.inexact += 1
+        return XF(val)
+
+    def _f(self):
+        return Fraction(float(self))
+
+    def __add__(self, o):
+        if not isinstance(o, (int, float)):
+            return NotImplemented
+        return XF._mk(float(self) + float(o), self._f() + Fraction(float(o)))
+    __radd__ = __add__
+
+    def __sub__(self, o):
+        if not isinstance(o, (int, float)):
+            return NotImplemented
+        return XF._mk(float(self) - float(o), self._f() - Fraction(float(o)))
+
+    def __rsub__(self, o):
+        if not isinstance(o, (int, float)):
+            return NotImplemented
+        return XF._mk(float(o) - float(self), Fraction(float(o)) - self._f())
+
+    def __mul__(self, o):
+        if not isinstance(o, (int, float)):
+            return NotImplemented
+        return XF._mk(float(self) * float(o), self._f() * Fraction(float(o)))
+    __rmul__ = __mul__
+
+    def __truediv__(self, o):
+        if not isinstance(o, (int, float)):
+            return NotImplemented
+        if float(o) == 0:
+            raise ZeroDivisionError("float division by zero")
+        return XF._mk(float(self) / float(o), self._f() / Fraction(float(o)))
+
+    def __rtruediv__(self, o):
+        if not isinstance(o, (int, float)):
+            return NotImplemented
+        if float(self) == 0:
+            raise ZeroDivisionError("float division by zero")
+        return XF._mk(float(o) / float(self), Fraction(float(o)) / self._f())
+
+    def __neg__(self):
+        return XF(-float(self))
+
+    def __pos__(self):
+        return self
+
+    def __pow__(self, k):
+        if not (isinstance(k, int) and k >= 0):
+            XF.inexact += 1
+            return XF(float(self) ** k)
+        return XF._mk(float(self) ** k, self._f() ** k)
+
+
+def xf(v):
+    return XF(v)
+
+
+def rand_scal(rng, power_of_two=False, allow_zero=True, wide=True):
+    r = rng.random()
+    if wide and r < 0.22:
+        return rng.choice(TINY_POW2 if power_of_two else TINY)
+    if wide and r < 0.30:
+        return rng.choice(HUGE_POW2 if power_of_two else HUGE)
     if power_of_two:
         v = rng.choice([1, 2, 0.5, 4, 0.25, -1, -2, -0.5, 2.0, 1.0])
     else:
@@ -46,10 +133,23 @@ def rand_scal(rng, power_of_two=False, allow_zero=True):
     return v
 
 
-def combo(rng, leaves, maxterms=3):
+def magnitude(v):
+    a = abs(float(v))
+    return "zero" if a == 0 else "tiny" if a < 1e-6 else "huge" if a > 1e6 else "moderate"
+
+
+def combo(rng, leaves, maxterms=3, wide_p=0.15):
     """(spec, builder): spec is a replayable description [[leaf index, weight], ...] (+ flags)"""
     k = rng.randint(1, maxterms)
-    spec = [[rng.randrange(len(leaves)), rng.choice(WEIGHTS)] for _ in range(k)]
+    if rng.random() < wide_p:
+        # a badly scaled point (e.g. a direction g / L): every leaf at most once, so that no float addition mixes
+        # magnitudes; one of the weights is tiny or huge
+        idx = list(range(len(leaves)))
+        rng.shuffle(idx)
+        spec = [[i, rng.choice(WEIGHTS)] for i in idx[:k]]
+        spec[rng.randrange(len(spec))][1] = rng.choice(TINY + HUGE)
+    else:
+        spec = [[rng.randrange(len(leaves)), rng.choice(WEIGHTS)] for _ in range(k)]
     zero_tail = rng.random() < 0.08      # unpruned zero entries:  (...) + 0 * leaf  is pruned by +, so scale last
     return dict(terms=spec, times_zero=zero_tail)
 
@@ -57,7 +157,7 @@ def combo(rng, leaves, maxterms=3):
 def build_point(spec, leaves):
     p = None
     for i, w in spec["terms"]:
-        term = leaves[i] if w == 1 else w * leaves[i]
+        term = leaves[i] if w == 1 else xf(w) * leaves[i]
         p = term if p is None else p + term
     if spec.get("times_zero"):
         p = p * 0            # dictionary with explicit zeros (not pruned by a scalar product)
@@ -97,7 +197,9 @@ def gen_case(rng, step=None, opt="#none", composite=False):
             elif r < 0.5:
                 call.append(dict(kind="P", pt=dict(terms=[[rng.randrange(nleaves), 1]], times_zero=False)))
             else:
-                call.append(dict(kind="P", pt=combo(rng, range(nleaves))))
+                # steps whose point arguments are gradients / directions: badly scaled ones (g / L) more often
+                wp = 0.4 if name in ("linear_optimization_step", "bregman_gradient_step", "bregman_proximal_step") else 0.15
+                call.append(dict(kind="P", pt=combo(rng, range(nleaves), wide_p=wp)))
         elif k == "F":
             fi = rng.randrange(nfun)
             call.append(dict(kind="F", f=fi))
@@ -120,6 +222,12 @@ def gen_case(rng, step=None, opt="#none", composite=False):
                 if c["kind"] == "S":
                     # division by gamma: power of two keeps float arithmetic exact; sometimes 0 (ZeroDivisionError)
                     c["v"] = 0 if rng.random() < 0.1 else rand_scal(rng, power_of_two=True)
+    if name == "inexact_gradient_step":
+        o = [c for c in call if c["kind"] == "O"][0]["v"]
+        sc = [c for c in call if c["kind"] == "S"]
+        if o == "relative" and magnitude(sc[1]["v"]) == "tiny":
+            # epsilon^2 |g|^2 is subtracted from |g - d|^2 on the same keys: 1 - eps^2 is not a float for a tiny eps
+            sc[1]["v"] = rng.choice([2.0 ** -10, 2.0 ** -20, 0.5, 3])
     return case
 
 
@@ -168,7 +276,7 @@ def call_args(case, c):
             args.append(c.funs[a["f"]])
             fids.append(a["f"])
         elif a["kind"] == "S":
-            args.append(a["v"])
+            args.append(xf(a["v"]) if isinstance(a["v"], float) else a["v"])
             scs.append(a["v"])
         elif a["kind"] == "L":
             ds = [build_point(p, c.leaves) for p in a["pts"]]
@@ -198,6 +306,7 @@ def coq_frec(d):
 def run_impl(case):
     """run the real step.  Returns (coq input literal, expected dump, info) """
     from PEPit import Point, Expression
+    XF.inexact = 0
     c = setup_case(case)
     args, pts, fids, scs, dirs, opt = call_args(case, c)
     pid, xid = leaf_maps()
@@ -216,6 +325,7 @@ def run_impl(case):
         coq_nat(pc), coq_nat(xc), coq_list([coq_frec(d) for d in pre]), coq_nat(len(c.funs)), coq_nat(len(pts)))
     err = None
     ret = None
+    dirs_given = list(dirs)
     try:
         with warnings.catch_warnings():
             warnings.simplefilter("ignore")
@@ -244,7 +354,11 @@ def run_impl(case):
         want = [t for t in f.list_of_points[npt:] if t[1].decomposition_dict == dict()]
         if len(new_stat) != len(want) or any(a is not b for a, b in zip(new_stat, want)):
             stat_ok = False
-    info = dict(result_kind=res[0], error=err, stat_ok=stat_ok, ctx=c, ret=ret, pts=pts, dirs=dirs, fids=fids,
+    mags = sorted(set(magnitude(v) for v in scs) |
+                  set(magnitude(w) for a in case["call"] if a["kind"] in ("P", "L")
+                      for sp in ([a["pt"]] if a["kind"] == "P" else a["pts"]) for _, w in sp["terms"]))
+    info = dict(dirs_ok=(len(dirs) == len(dirs_given) and all(a is b for a, b in zip(dirs, dirs_given))),
+                exact=(XF.inexact == 0), magnitudes=mags, result_kind=res[0], error=err, stat_ok=stat_ok, ctx=c, ret=ret, pts=pts, dirs=dirs, fids=fids,
                 scs=scs, opt=opt, n_pts=n_pts, n_cons=[len(d[2]) for d in pre], pc=pc, xc=xc)
     return lit, dump, info
 
@@ -655,6 +769,12 @@ def _quad_of(F):
 
 
 def semantic_trial(desc):
+    """see _semantic_trial; a trial in which some float operation rounded decides nothing"""
+    r = _semantic_trial(desc)
+    return None if (r is not None and XF.inexact) else r
+
+
+def _semantic_trial(desc):
     """run one real execution described by desc = {step, opt, seed, composite}; None if everything recorded is
     satisfied (and tight where a tightness test exists), else a description of the failure"""
     from PEPit import PEP, Point, Expression
@@ -672,8 +792,14 @@ def semantic_trial(desc):
         return build_point(combo(rng, leaves, 2), leaves) if rng.random() < 0.7 else leaves[rng.randrange(3)]
 
     tests = grid(dim, rng)
-    gamma = rng.choice([Fraction(1, 2), Fraction(1), Fraction(2), Fraction(1, 4)])
-    fl = float
+    gamma = rng.choice([Fraction(1, 2), Fraction(1), Fraction(2), Fraction(1, 4),
+                        Fraction(1, 2 ** 30), Fraction(1e-9), Fraction(3, 2 ** 42), Fraction(2 ** 20)])
+    if desc.get("gamma") is not None:
+        gamma = Fraction(desc["gamma"])
+
+    def fl(v):
+        return XF(float(v))
+    XF.inexact = 0
     members = []
     step = step_fn(name)
 
@@ -682,6 +808,8 @@ def semantic_trial(desc):
                 {id(f): len(f.list_of_constraints) for f, _ in members})
 
     def finish(extra=None):
+        if XF.inexact:
+            return None          # a float operation rounded: the exact comparison below would be meaningless
         propagate_samples(val, members, start)
         bad = check_records(val, members, start, cstart, tests)
         if bad:
@@ -705,11 +833,29 @@ def semantic_trial(desc):
             if not val.unknown_points(x) and val.point(x) != xr:
                 return dict(kind="returned-point-is-not-the-proximal-point", x0=x0v, gamma=gamma, real=xr,
                             returned=val.point(x))
+            bad = finish()
+            if bad or XF.inexact or rng.random() < 0.5:
+                return bad
+            # a second proximal step, from x - gamma gx (a point related to an already recorded sample)
+            x0b = x - fl(gamma) * gx
+            x0bv = val.point(x0b)
+            start, cstart = snapshot()
+            x2, g2, f2 = step(x0b, f, fl(gamma))
+            xr2 = _quad_of(F).prox(gamma, x0bv) if kind == "smooth" else F.prox(gamma, x0bv)
+            if val.unknown_points(g2):
+                val.solve_point(g2, vscal(1 / gamma, vsub(x0bv, xr2)))
+            if val.unknown_exprs(f2):
+                val.solve_expr(f2, F.val(xr2))
+            if not val.unknown_points(x2) and val.point(x2) != xr2:
+                return dict(kind="returned-point-is-not-the-proximal-point", x0=x0bv, gamma=gamma, real=xr2,
+                            returned=val.point(x2), second_call=True)
             return finish()
 
         if name == "linear_optimization_step":
             f, F, members = _members(rng, dim, "box", False)
             d = pt()
+            if rng.random() < 0.4:       # a rescaled direction (the normal cone is a cone)
+                d = d * XF(rng.choice([2.0 ** -35, 1e-9, 2.0 ** 30]))
             dv = val.point(d)
             start, cstart = snapshot()
             x, gx, fx = step(d, f)
@@ -741,16 +887,14 @@ def semantic_trial(desc):
             bad = finish()
             if bad:
                 return bad
+            if XF.inexact:
+                return None
             # tightness: a direction just outside the accuracy must violate what was recorded
             bound = eps * eps * (dot(g, g) if notion == "relative" else 1)
-            over = [Fraction(0)] * dim
-            k = Fraction(1)
-            while True:       # rational vector with squared norm slightly above the bound
-                over = [k] + [Fraction(0)] * (dim - 1)
-                if k * k > bound and k * k <= bound + Fraction(1, 2) + bound / 4:
-                    break
-                k = k + Fraction(1, 4) if k * k <= bound else k - Fraction(1, 8)
-            old = val.p[id(dx0)] if not dx0.decomposition_dict or len(dx0.decomposition_dict) != 1 else None
+            import math
+            N = 1024          # rational k with k^2 slightly above the bound
+            k = Fraction(math.isqrt(int(bound * N * N)) + 1, N)
+            over = [k] + [Fraction(0)] * (dim - 1)
             leaf = list(dx0.decomposition_dict)[0]
             keep = val.p[id(leaf)]
             val.set_p(leaf, vadd(g, over))
@@ -767,7 +911,10 @@ def semantic_trial(desc):
             dirs = [pt() for _ in range(rng.randint(1, 3))]
             dvs = [val.point(d) for d in dirs]
             start, cstart = snapshot()
+            dirs_given = list(dirs)
             x, gx, fx = step(x0, f, dirs)
+            if len(dirs) != len(dirs_given) or any(a is not b for a, b in zip(dirs, dirs_given)):
+                return dict(kind="caller-list-of-directions-modified", before=len(dirs_given), after=len(dirs))
             xr = _quad_of(F).linesearch(x0v, dvs)
             if xr is None:
                 return None
@@ -775,6 +922,8 @@ def semantic_trial(desc):
             bad = finish()
             if bad:
                 return bad
+            if XF.inexact:
+                return None
             # tightness: the documented condition <grad f(x), x - x0> = 0 must be recorded as well.  Move x0 (when it
             # is a single leaf not used by the directions) along the gradient: every <gx, d> = 0 still holds.
             gxv = val.point(gx)
@@ -836,6 +985,8 @@ def semantic_trial(desc):
             bad = finish()
             if bad:
                 return bad
+            if XF.inexact:
+                return None
             if val.point(x) != vsub(x0v, vscal(gamma, gr)):
                 return dict(kind="returned-point-is-not-x0-minus-gamma-g0", returned=val.point(x))
             for z in tests:       # g0 really is an eps-subgradient at x0
@@ -889,6 +1040,8 @@ def semantic_trial(desc):
             bad = finish()
             if bad:
                 return bad
+            if XF.inexact:
+                return None
             if val.point(x) != xr or val.point(v) != vr or val.point(w) != wr:
                 return dict(kind="returned-objects-are-not-the-real-ones", option=o)
             if slack == 0 and len(epsv.decomposition_dict) == 1:
